@@ -48,6 +48,8 @@ class ExprMixin:
             return T.sv_opt(ty.t, z3.BoolVal(False), self.coerce(v, ty.t))
         if ty == T.REAL and v.ty in (T.INT, T.BOOL):
             return T.sv_real(T.to_real(v))
+        if ty == T.XINT and v.ty in (T.INT, T.BOOL):
+            return T.scalar(T.XINT, T.XIntS.fin(self.coerce(v, T.INT).t))
         if ty == T.INT and v.ty == T.BOOL:
             return T.sv_int(z3.If(v.t, 1, 0))
         if v.ty == T.EMPTYLIST:
@@ -94,7 +96,9 @@ class ExprMixin:
             oa, ob = self.coerce(a, T.Opt(base)), self.coerce(b, T.Opt(base))
             return T.sv_opt(base, z3.If(c, oa.is_none, ob.is_none), self.merge(c, oa.val, ob.val))
         if a.ty != b.ty:
-            if {a.ty, b.ty} <= {T.INT, T.REAL, T.BOOL}:
+            if T.XINT in (a.ty, b.ty) and {a.ty, b.ty} <= {T.XINT, T.INT, T.BOOL}:
+                a, b = self.coerce(a, T.XINT), self.coerce(b, T.XINT)
+            elif {a.ty, b.ty} <= {T.INT, T.REAL, T.BOOL}:
                 tt = T.REAL if T.REAL in (a.ty, b.ty) else T.INT
                 a, b = self.coerce(a, tt), self.coerce(b, tt)
             elif a.ty in (T.EMPTYDICT, T.EMPTYLIST, T.EMPTYSET):
@@ -210,6 +214,8 @@ class ExprMixin:
             return z3.And(z3.Not(a.is_none), self.equal(a.val, b, p))
         if isinstance(b.ty, T.Opt):
             return z3.And(z3.Not(b.is_none), self.equal(a, b.val, p))
+        if T.XINT in (a.ty, b.ty) and a.ty != b.ty and {a.ty, b.ty} <= {T.XINT, T.INT, T.BOOL}:
+            return self.coerce(a, T.XINT).t == self.coerce(b, T.XINT).t
         if {a.ty, b.ty} <= {T.INT, T.REAL, T.BOOL} and a.ty != b.ty:
             return T.to_real(a) == T.to_real(b)
         if a.ty in (T.EMPTYDICT, T.EMPTYLIST, T.EMPTYSET) and b.ty not in (T.EMPTYDICT, T.EMPTYLIST, T.EMPTYSET):
@@ -273,6 +279,8 @@ class ExprMixin:
             if isinstance(o.ty, T.Obj):
                 return self.str_const(o.ty.cls)
             raise Unsupported("type(x).__name__ of a non-object")
+        if e.attr == "inf" and isinstance(e.value, ast.Name) and e.value.id == "math" and "math" not in p.env:
+            return T.scalar(T.XINT, T.XIntS.pinf)      # math.inf, used as the neutral element of a running min / max over integers
         base = self.ev(e.value, p)
         if isinstance(base.ty, T.Obj):
             if e.attr not in base.fields:
@@ -299,6 +307,9 @@ class ExprMixin:
             return v.t
         if v.ty == T.NONE:
             return z3.Const("val_None", T.ValS)
+        if isinstance(v.ty, T.Seq):
+            inj = z3.Function("val_of_seq_" + "".join(ch if ch.isalnum() else "_" for ch in v.ty.e.name), T.I, z3.ArraySort(T.I, v.ty.e.sort()), T.ValS)
+            return inj(v.len, v.at)
         if not v.ty.scalar or v.ty.sort() is None:
             raise Unsupported(f"metadata value of type {v.ty}")
         inj = z3.Function("val_of_" + "".join(ch if ch.isalnum() else "_" for ch in v.ty.name), v.ty.sort(), T.ValS)
@@ -395,6 +406,9 @@ class ExprMixin:
                 return T.sv_int(-v.t)
             if v.ty == T.REAL:
                 return T.sv_real(-v.t)
+            if v.ty == T.XINT:
+                X = T.XIntS
+                return T.scalar(T.XINT, z3.If(X.is_pinf(v.t), X.ninf, z3.If(X.is_ninf(v.t), X.pinf, X.fin(-X.xval(v.t)))))
         raise Unsupported("unary operator")
 
     def ev_BinOp(self, e, p):
@@ -445,6 +459,10 @@ class ExprMixin:
             if z3.is_int_value(lt) or z3.is_int_value(rt) or z3.is_rational_value(lt) or z3.is_rational_value(rt):
                 return mk(lt * rt)
             raise Unsupported("nonlinear multiplication")
+        if isinstance(op, ast.Div):
+            # true division: an uninterpreted function of the two operands as reals (congruence only: no arithmetic facts about the quotient)
+            self._raise_if(p, rt == 0, "ZeroDivisionError", note)
+            return T.sv_real(TH.RDIV(T.to_real(l), T.to_real(r)))
         if isinstance(op, (ast.FloorDiv, ast.Mod)) and not real and z3.is_int_value(rt) and rt.as_long() > 0:
             return mk(lt / rt if isinstance(op, ast.FloorDiv) else lt % rt)
         raise Unsupported("arithmetic operator")
@@ -476,6 +494,16 @@ class ExprMixin:
         if isinstance(op, ast.NotEq):
             return z3.Not(self.equal(l, r, p))
         l, r = self.unopt(l, p, note), self.unopt(r, p, note)
+        if T.XINT in (l.ty, r.ty) and {l.ty, r.ty} <= {T.XINT, T.INT, T.BOOL}:
+            a, b = self.coerce(l, T.XINT).t, self.coerce(r, T.XINT).t
+            if isinstance(op, ast.Lt):
+                return T.x_lt(a, b)
+            if isinstance(op, ast.LtE):
+                return z3.Not(T.x_lt(b, a))
+            if isinstance(op, ast.Gt):
+                return T.x_lt(b, a)
+            if isinstance(op, ast.GtE):
+                return z3.Not(T.x_lt(a, b))
         if l.ty in (T.INT, T.REAL, T.BOOL) and r.ty in (T.INT, T.REAL, T.BOOL):
             real = T.REAL in (l.ty, r.ty)
             lt = T.to_real(l) if real else self.coerce(l, T.INT).t
